@@ -6,5 +6,5 @@ CONSTANTS
   RawScriptFallback = FALSE
   MutClasses <- MutNone
 INVARIANTS SameSigners Sound
-
+ACTION_CONSTRAINT Edge
 CHECK_DEADLOCK FALSE
